@@ -69,7 +69,9 @@ OUTSIDE = ["literal *spelling*: values are decimal, the type is fixed by the suf
            "(the typing of unsuffixed literals too large for int, octal/hex literals and character constants is not examined)",
            "bit-field *widths* and array designators as constant expressions (only the uses listed in the bounds)",
            "floating-point and address constants, sizeof, enumeration constants inside the expression",
-           "expression trees deeper than 2 operators",
+           "expression trees deeper than 2 operators; among the sampled depth-2 trees those with more than one of * / %, with * / % "
+           "next to <<, with more than one <<, or with a growing operator inside a shift count (wide symbolic products and "
+           "quotients of sub-expressions are out of the solvers' reach); shapes whose premise no literal assignment satisfies",
            f"shift counts built from literals larger than {SHIFT_COUNT_MAX} (undefined in C for every integer type)",
            "structure layout (padding/alignment): for struct fields only the bytes of the initialised field are compared"]
 ASSUMPTIONS = ["C integer semantics as written in /verif/ref/csem.py from ISO C11 6.3.1, 6.5, 6.6 (out-of-range conversion to a "
@@ -437,7 +439,7 @@ def _grows_in_count(e, inside=False):
 def tractable(e):
     txt = csem.render(e, lambda i, s: "L")
     heavy = txt.count("*") + txt.count("/") + txt.count("%")
-    return txt.count("<<") <= 1 and heavy <= 1 and not _grows_in_count(e)
+    return txt.count("<<") <= 1 and heavy <= 1 and not (heavy and txt.count("<<")) and not _grows_in_count(e)
 
 
 def has_defined_point(h, rnd, tries=300):
